@@ -12,7 +12,7 @@ TRUSTED = ["tensor.nbytes/name/dtype/shape are stable attributes with nbytes >= 
            "os.path.join/normpath: deterministic string functions (trusted library contract)"]
 NOT_DECIDED = ["save->load byte round trip (I/O) is only covered by the bounded stand-in",
                "safetensors backend writer (third-party safetensors library)"]
-BOUNDED = []
+BOUNDED = [{"name": 'C07 save/load round trip grid, layout of recorded ranges, in-place re-save, tensor objects restored (bounded, not a proof)', "script": "bounded_extdata.py", "args": ["--prop", 'C07']}]
 
 SPEC = '''
 def factor(alignment):
